@@ -144,7 +144,7 @@ func checkC18(c *Ctx) Meta {
 		changed := false
 		w.memo = map[ssa.Value]bool{}
 		for _, fn := range fns {
-			allInstrs(fn, func(in ssa.Instruction) {
+			allInstrsShallow(fn, func(in ssa.Instruction) {
 				switch x := in.(type) {
 				case *ssa.Call:
 					if calleeID(x) == "(*math/big.Int).Bytes" && iter == 0 {
@@ -181,7 +181,7 @@ func checkC18(c *Ctx) Meta {
 	nSinks := 0
 	for _, fn := range fns {
 		ord := map[string]int{}
-		allInstrs(fn, func(in ssa.Instruction) {
+		allInstrsShallow(fn, func(in ssa.Instruction) {
 			cl, ok := in.(*ssa.Call)
 			if !ok {
 				return
@@ -233,7 +233,7 @@ func checkC18(c *Ctx) Meta {
 	// padded consumers: list them so that the evidence shows the discipline
 	for _, fn := range fns {
 		ord := 0
-		allInstrs(fn, func(in ssa.Instruction) {
+		allInstrsShallow(fn, func(in ssa.Instruction) {
 			cl, ok := in.(*ssa.Call)
 			if !ok {
 				return
@@ -425,8 +425,15 @@ func sameOriginValue(fn *ssa.Function, a, b ssa.Value) bool {
 		}
 	}
 	ra, rb := map[ssa.Value]bool{}, map[ssa.Value]bool{}
-	valueOrigins(fn, a, func(r ssa.Value) { ra[r] = true })
-	valueOrigins(fn, b, func(r ssa.Value) { rb[r] = true })
+	if len(gNewFuncs) > 0 && (instrParent(a) != fn || instrParent(b) != fn) {
+		// one of the values sits in a helper the reference tree does not have: follow its parameters to
+		// the arguments of its call sites (canon.go)
+		originsAcross(a, ra, 4)
+		originsAcross(b, rb, 4)
+	} else {
+		valueOrigins(fn, a, func(r ssa.Value) { ra[r] = true })
+		valueOrigins(fn, b, func(r ssa.Value) { rb[r] = true })
+	}
 	for k := range ra {
 		if rb[k] {
 			return true
@@ -474,7 +481,7 @@ func checkLabelImpliesPrivate(c *Ctx, w *widthTaint, fns []*ssa.Function) {
 	}
 	// the constructor is the only writer of ExtendedKey.key besides in-place zeroing
 	for _, fn := range fns {
-		for _, cl := range callsIn(fn, pkgHD+".NewExtendedKey") {
+		for _, cl := range callsInShallow(fn, pkgHD+".NewExtendedKey") {
 			key, priv := cl.Call.Args[1], cl.Call.Args[6]
 			if !w.labeled(fn, key) {
 				continue
@@ -559,7 +566,7 @@ func checkTablesNotMutated(c *Ctx, rule string) {
 			continue
 		}
 		fn := fn
-		allInstrs(fn, func(in ssa.Instruction) {
+		allInstrsShallow(fn, func(in ssa.Instruction) {
 			cl, ok := in.(*ssa.Call)
 			if !ok || !strings.HasPrefix(calleeID(cl), "(*math/big.Int).") || !mut[callName(cl)] {
 				return
@@ -604,4 +611,49 @@ func checkTablesNotMutated(c *Ctx, rule string) {
 	} else {
 		c.OK(rule, key, "", fmt.Sprintf("%d in-place big.Int operations in the keystore and hdkeychain packages, none on a package-level value", n))
 	}
+}
+
+
+func instrParent(v ssa.Value) *ssa.Function {
+	if in, ok := v.(ssa.Instruction); ok {
+		return in.Parent()
+	}
+	if p, ok := v.(*ssa.Parameter); ok {
+		return p.Parent()
+	}
+	if fv, ok := v.(*ssa.FreeVar); ok {
+		return fv.Parent()
+	}
+	return nil
+}
+
+// originsAcross: the roots of v, where a parameter of a new helper (canon.go) is replaced by the roots
+// of the arguments at the helper's call sites.
+func originsAcross(v ssa.Value, out map[ssa.Value]bool, depth int) {
+	fn := instrParent(v)
+	if fn == nil {
+		out[v] = true
+		return
+	}
+	valueOrigins(fn, v, func(r ssa.Value) {
+		if p, ok := r.(*ssa.Parameter); ok && depth > 0 && gNewFuncs[lexicalOutermost(p.Parent())] && p.Parent().Parent() == nil {
+			h := p.Parent()
+			idx := -1
+			for i, q := range h.Params {
+				if q == p {
+					idx = i
+				}
+			}
+			sites := gCallSitesOf[h]
+			if idx >= 0 && len(sites) > 0 {
+				for _, s := range sites {
+					if args := s.Common().Args; idx < len(args) {
+						originsAcross(args[idx], out, depth-1)
+					}
+				}
+				return
+			}
+		}
+		out[r] = true
+	})
 }
